@@ -141,6 +141,18 @@ theorem glue_pinned :
     Gen.pinTextWriters = "38bb5efa8ef5d1a0" ∧ Gen.pinTextReaders = "61c81f2c2841b217" ∧
     Gen.pinMetadataDict = "3dbcdd147066c27c" ∧ Gen.textPrecision = 10 := by decide
 
+/-- **a written product replaces what its file held** — every place where the library opens a file for writing truncates it
+(`w` / `wb`: HDF5 products, YAML, the three text files, the tree pickle and its marker); the one appending site is the
+record writer of a patch, whose file lives in a directory the writer has just created.  Read off the source on every run. -/
+theorem write_sites_truncate :
+    ∀ s ∈ Gen.writeSites, s.2 = "w" ∨ s.2 = "wb" ∨ s = ("yaw/catalog/patch.py:PatchWriter.open", "ab") := by decide
+
+theorem result_writers_present :
+    ("yaw/utils/abc.py:HdfSerializable.to_file", "w") ∈ Gen.writeSites ∧
+    ("yaw/utils/abc.py:YamlSerialisable.to_file", "w") ∈ Gen.writeSites ∧
+    ("yaw/correlation/corrdata.py:write_data", "w") ∈ Gen.writeSites ∧
+    ("yaw/correlation/corrdata.py:write_samples", "w") ∈ Gen.writeSites := by decide
+
 /-! non-vacuity -/
 example : toSparse 2 2 (fun b i j => if i = 0 ∧ j = 1 then (b : Rat) - 1 else 0) = [((0, 1), [-1, 0])] := by
   decide +kernel
